@@ -83,8 +83,30 @@ def write (st : Stream) (data : Bytes) : M (Stream × Nat) :=
     let (rs, rd) ← readData rs (Rd.ofBytes data)
     pure ({ st with tmp := [], state := some (.data rs) }, data.length - rd.rem.length)
 
-/-- the stream as left behind by a `write` that returned `Err` -/
+/-- the stream as left behind by a `write` that returned `Err`: the state was
+`take`n at the start of `write` and is only put back on success -/
 def failed (st : Stream) : Stream := { st with state := none }
+
+/-- `write` as a state transition of the `Stream` object: the stream after the
+call (also when the call fails) and the call's result -/
+def writeS (st : Stream) (data : Bytes) (snk : Sink) : Sink × Stream × Except Err Nat :=
+  match st.write data snk with
+  | (snk', .ok (st', n)) => (snk', st', .ok n)
+  | (snk', .error e) => (snk', st.failed, .error e)
+
+/-- the feeding loop of a caller that re-submits what a `write` did not accept
+(like `write_all`, except that `Ok(0)` just ends the feeding): returns the
+number of bytes accepted in total -/
+def feed : Nat → Stream → Bytes → Nat → Sink → Sink × Stream × Except Err Nat
+  | 0, st, _, acc, snk => (snk, st, .ok acc)
+  | fuel+1, st, data, acc, snk =>
+    if data.isEmpty then (snk, st, .ok acc)
+    else
+      match st.writeS data snk with
+      | (snk', st', .error e) => (snk', st', .error e)
+      | (snk', st', .ok n) =>
+        if n = 0 then (snk', st', .ok acc)
+        else feed fuel st' (data.drop n) (acc + n) snk'
 
 /-- `<Stream as Write>::flush` -/
 def flush (st : Stream) : M Unit :=
